@@ -8,7 +8,10 @@ Two levels (hardening round 3): an obligation is decided on its LOCATED role in 
 or is located in a shape that is not one of the enumerated ones, the obligation is decided END TO END on the facts read off the results of the analysed code for representative
 inputs (_Decider + _WaSim: calculate_worker_assignments evaluated by _run; _MatrixSim: the allocator interpreted by the abstract machine of rules.C01 on its model schedules).
 Only when that evaluation is impossible too the verdict is structural: falsified for a role that was located and is wrong, 'not recognised' (exit 2) for a role that was not
-located. A class without a hand-written constructor is read through the constructor its record decorator generates (_ctor: @dataclass / typing.NamedTuple fields)."""
+located. A class without a hand-written constructor is read through the constructor its record decorator generates (_ctor: @dataclass / typing.NamedTuple fields).
+
+Hardening round 4: O2.5 (worker ids are list positions) is decided on Driver.start_benchmark TOGETHER WITH the methods / functions it delegates to (_CallTree: one frame per
+call site; expressions of a helper are restated in the caller's terms, values a helper returns are followed back), so the roles are found wherever the code is cut."""
 from __future__ import annotations
 
 import ast
@@ -1960,6 +1963,415 @@ def _matrix_roles(M, drv):
         M.unknown("O2.8", PAD, f"padding bound `{u(undecided[0][0])}` is not an expression over the row count and `{elem}.clients` ({undecided[0][1]})", undecided[0][0], key=_AK + "element-padding-bound")
 
 
+# ---- O2.5 worker ids are list positions -----------------------------------------------------------------------------------------------------------------------
+def _own(func):
+    """the nodes of a function's own body: nested functions / classes / lambdas appear as nodes, what is inside them does not"""
+    return [n for n in walk_body(func) if source.enclosing(n, source.SCOPE_TYPES) is func]
+
+
+class _Frame:
+    """one activation in the call tree of an analysed function: the function, the call that enters it (None for the root), the frame that call belongs to and, for a function
+    nested in another one, the frame of the function it is defined in (where its free variables live)"""
+
+    def __init__(self, k, func, call=None, up=None, outer=None):
+        self.k, self.func, self.call, self.up, self.outer = k, func, call, up, outer
+        self.own = _own(func)
+        a = func.args
+        self.params = [x.arg for x in a.posonlyargs + a.args + a.kwonlyargs] + [x.arg for x in (a.vararg, a.kwarg) if x is not None]
+        stored = {x.id for x in self.own if isinstance(x, ast.Name) and isinstance(x.ctx, ast.Store)}
+        self.locals = set(self.params) | stored | {n.name for n in self.own if isinstance(n, (ast.FunctionDef, ast.AsyncFunctionDef, ast.ClassDef))}
+        # locals bound exactly once, by a plain assignment (as source.local_defs, on the function's OWN nodes)
+        nstores = {}
+        for x in self.own:
+            if isinstance(x, ast.Name) and isinstance(x.ctx, ast.Store):
+                nstores[x.id] = nstores.get(x.id, 0) + 1
+        self.defs = {t.id: n.value for n in self.own if isinstance(n, ast.Assign) for t in n.targets if isinstance(t, ast.Name) and nstores.get(t.id) == 1 and t.id not in self.params}
+        self.args = {}
+        if call is not None:
+            bound = source.bind_args(call, func)
+            pos = a.posonlyargs + a.args
+            for x, d in list(zip(pos[::-1], a.defaults[::-1])) + [(x, d) for x, d in zip(a.kwonlyargs, a.kw_defaults) if d is not None]:
+                if x.arg not in bound and isinstance(d, ast.Constant):
+                    bound[x.arg] = d  # (a parameter left to its constant default)
+            # a parameter the callee re-binds is a local of the callee, not the caller's value
+            self.args = {p_: e for p_, e in bound.items() if p_ not in stored}
+        # the receiver of a method (entered through `self.<m>(...)`) is the caller's receiver: the same object under the same name
+        self.receiver = params_of(func)[0] if isinstance(source.parent(func), ast.ClassDef) and not _is_static(func) and params_of(func) else None
+
+    def chain(self):
+        fr = self
+        while fr is not None:
+            yield fr
+            fr = fr.up
+
+
+class _CallTree:
+    """A method together with the methods of its class (`self.<m>(...)`), the functions of its module (`<f>(...)`) and the functions nested in it that it calls, transitively:
+    an extracted helper is analysed as part of its caller. Every call site is an activation of its own (_Frame). resolve() states an expression of any frame in the terms of
+    the ROOT function: locals bound once are replaced by their definitions, parameters by the argument expressions of the call site, calls of a helper with a single
+    `return <expr>` by that expression; whatever stays local to a called frame (loop variables, locals bound more than once) is tagged with the frame number, so that it is
+    never mistaken for a name of the caller. Roles are then compared as root-level texts, however the code is cut into methods. origins() follows one VALUE back to the
+    expressions it may come from (by node identity)."""
+
+    def __init__(self, mod, root, depth=3, limit=80):
+        cls = source.enclosing_class(root)
+        meths = mod.methods(cls) if cls is not None else {}
+        funcs = {n.name: n for n in mod.tree.body if isinstance(n, ast.FunctionDef)}
+        self.root = _Frame(0, root)
+        self.keep = set()  # locals of the root function that stay names (the candidates for the worker id)
+        self.frames, self.by_call, todo = [self.root], {}, [(self.root, 0)]
+        while todo:
+            fr, d = todo.pop(0)
+            if d >= depth:
+                continue
+            nested = {n.name: n for n in fr.own if isinstance(n, ast.FunctionDef)}
+            for n in fr.own:
+                if not isinstance(n, ast.Call) or len(self.frames) >= limit:
+                    continue
+                callee = outer = None
+                if isinstance(n.func, ast.Attribute) and isinstance(n.func.value, ast.Name) and n.func.value.id == fr.receiver:
+                    callee = meths.get(n.func.attr)
+                elif isinstance(n.func, ast.Name) and n.func.id in nested:
+                    callee, outer = nested[n.func.id], fr
+                elif isinstance(n.func, ast.Name) and n.func.id not in fr.locals:
+                    callee = funcs.get(n.func.id)
+                if not isinstance(callee, ast.FunctionDef) or any(g.func is callee for g in fr.chain()) or callee.args.vararg or callee.args.kwarg \
+                        or any(isinstance(a_, ast.Starred) for a_ in n.args) or any(k.arg is None for k in n.keywords) \
+                        or any(dotted(d_) not in ("staticmethod", "classmethod") for d_ in callee.decorator_list) or any(isinstance(x, (ast.Yield, ast.YieldFrom)) for x in _own(callee)):
+                    continue
+                new = _Frame(len(self.frames), callee, n, fr, outer)
+                self.frames.append(new)
+                self.by_call[id(n)] = new
+                todo.append((new, d + 1))
+
+    def nodes(self, pred):
+        """(frame, node) for every node of every activation that satisfies pred"""
+        return [(fr, n) for fr in self.frames for n in fr.own if pred(n)]
+
+    def chain(self, fr, node):
+        """the node and the call sites through which it is reached, innermost first: [(frame, node), (calling frame, call), ..., (root frame, call in the root)]"""
+        out = []
+        while fr is not None:
+            out.append((fr, node))
+            fr, node = fr.up, fr.call
+        return out
+
+    def root_stmt(self, fr, node):
+        """the statement of the root function during which the node runs"""
+        return source.enclosing_stmt(self.chain(fr, node)[-1][1])
+
+    def tag(self, fr, name):
+        return name if fr.k == 0 else f"{name}·{fr.k}"
+
+    def always_runs(self, fr, node):
+        """the node is executed by every activation of the called frames between it and the root that completes normally: at each level it sits in a top-level statement of
+        the function, behind no statement that can leave the function"""
+        for g, n in self.chain(fr, node)[:-1]:
+            st = source.enclosing_stmt(n)
+            if logical_parent(st) is not g.func:
+                return False
+            if any(isinstance(x, (ast.Return, ast.Raise)) and x.lineno < st.lineno for x in g.own):
+                return False
+        return True
+
+    def returns(self, fr):
+        return [x for x in fr.own if isinstance(x, ast.Return) and x.value is not None]
+
+    def resolve(self, fr, expr, depth=0):
+        """fresh expression: `expr` of frame `fr` in the terms of the root function"""
+        if depth > 14:
+            raise AnchorMissing(f"`{short(expr, 50)}`: definitions nested too deeply to be followed")
+
+        def rec(n):
+            if isinstance(n, ast.Name):
+                if isinstance(n.ctx, ast.Load) and not (fr.k == 0 and n.id in self.keep):
+                    if n.id in fr.args:
+                        return self.resolve(fr.up, fr.args[n.id], depth + 1)
+                    if n.id in fr.defs:
+                        return self.resolve(fr, fr.defs[n.id], depth + 1)
+                if n.id not in fr.locals and fr.outer is not None:
+                    return self.resolve(fr.outer, n, depth + 1)  # (a free variable of a nested function)
+                if fr.k and n.id in fr.locals and n.id != fr.receiver:
+                    return ast.copy_location(ast.Name(id=self.tag(fr, n.id), ctx=n.ctx), n)
+                return ast.copy_location(ast.Name(id=n.id, ctx=n.ctx), n)
+            if isinstance(n, ast.Call) and id(n) in self.by_call:
+                sub = self.by_call[id(n)]
+                rets = [x for x in sub.own if isinstance(x, ast.Return)]
+                if len(rets) == 1 and rets[0].value is not None and logical_parent(rets[0]) is sub.func:
+                    return self.resolve(sub, rets[0].value, depth + 1)
+            new = type(n)()
+            for name, val in ast.iter_fields(n):
+                if isinstance(val, list):
+                    setattr(new, name, [rec(x) if isinstance(x, ast.AST) else x for x in val])
+                else:
+                    setattr(new, name, rec(val) if isinstance(val, ast.AST) else val)
+            return ast.copy_location(new, n) if hasattr(n, "lineno") else new
+
+        return rec(expr)
+
+    def text(self, fr, expr):
+        return u(self.resolve(fr, expr))
+
+    def origins(self, fr, e, depth=0):
+        """the expressions [(frame, node)] the value of `e` may come from: through locals bound once, parameters (the caller's argument) and the return statements of a
+        called helper (every one of them)"""
+        if depth > 14:
+            return [(fr, e)]
+        if isinstance(e, ast.Name):
+            if e.id in fr.args:
+                return self.origins(fr.up, fr.args[e.id], depth + 1)
+            if e.id in fr.defs:
+                return self.origins(fr, fr.defs[e.id], depth + 1)
+            if e.id not in fr.locals and fr.outer is not None:
+                return self.origins(fr.outer, e, depth + 1)
+        if isinstance(e, ast.Call) and id(e) in self.by_call and self.returns(self.by_call[id(e)]):
+            sub = self.by_call[id(e)]
+            return [o for r in self.returns(sub) for o in self.origins(sub, r.value, depth + 1)]
+        return [(fr, e)]
+
+
+def _call_args(call):
+    """the argument expressions of a call, given by position or by keyword"""
+    return list(call.args) + [k.value for k in call.keywords if k.arg is not None]
+
+
+class _NotHere(AnchorMissing):
+    """a role of O2.5 is not found with this function as the home of the worker id (nothing has been stated yet: the next candidate is tried)"""
+
+
+def worker_ids_are_positions(chk, rid, drv):
+    """O2.5 on Driver.start_benchmark TOGETHER WITH the helper methods / functions it delegates to (_CallTree): the creation of a worker, the append to the worker list, the
+    client loop and what it records may sit in the method itself or in an extracted helper; every role is compared in the terms of the function that owns the worker id
+    (arguments followed through the call sites, returned values back to the caller). That function is start_benchmark or, when the whole loop over the worker assignments was
+    moved out, the helper on the way to the creation of the worker in which such an id is found. The worker id is a value that equals the position of the worker in the list by
+    construction: a counter advanced by one together with the append, the index of an `enumerate` loop every round of which appends one worker, or the length of the list
+    taken before the append."""
+    D = drv.cls("Driver")
+    sb = drv.methods(D).get("start_benchmark")
+    if sb is None:
+        raise AnchorMissing("Driver.start_benchmark")
+    T0 = _CallTree(drv, sb)
+    cc = T0.nodes(lambda n: isinstance(n, ast.Call) and last_attr(n.func) == "create_client")
+    if not cc:
+        raise AnchorMissing("creation of a worker (`create_client(...)`) in Driver.start_benchmark or in a method it calls")
+    first = None
+    for fr in reversed(list(cc[0][0].chain())):
+        try:
+            return _worker_ids(chk, rid, drv, D, T0 if fr.k == 0 else _CallTree(drv, fr.func), T0)
+        except _NotHere as x:
+            first = first or x
+    raise first
+
+
+def _worker_ids(chk, rid, drv, D, T, T0):
+    root = T.root
+    sb = root.func
+    cc = T.nodes(lambda n: isinstance(n, ast.Call) and last_attr(n.func) == "create_client")
+    if not cc:
+        raise _NotHere(f"creation of a worker (`create_client(...)`) in {sb.name}")
+
+    # the worker list: the self attribute the created worker is appended to (the worker reaches the append through locals / as the value a helper returns)
+    def is_created(fr, e):
+        if any(n is c for _, n in T.origins(fr, e) for _, c in cc):
+            return True
+        return isinstance(e, ast.Name) and any(isinstance(n, ast.Assign) and any(n.value is c for g, c in cc if g is fr) and any(u(t) == e.id for t in n.targets) for n in fr.own)
+
+    apps = T.nodes(lambda n: isinstance(n, ast.Call) and last_attr(n.func) == "append" and isinstance(n.func, ast.Attribute) and len(n.args) == 1 and not n.keywords)
+    apps = [(fr, n) for fr, n in apps if is_self_attr(T.resolve(fr, n.func.value)) and is_created(fr, n.args[0])]
+    if not apps:
+        raise _NotHere(f"append of the created worker to a list attribute of the driver in {sb.name} (or in a method it calls)")
+    lists = {T.text(fr, n.func.value) for fr, n in apps}
+    app_stmts = [T.root_stmt(fr, n) for fr, n in apps]
+    # candidates for the worker id among the locals of start_benchmark, by the way they are bound
+    counters = sorted({n.target.id for n in root.own if isinstance(n, ast.AugAssign) and isinstance(n.op, ast.Add) and isinstance(n.target, ast.Name) and source.is_const(n.value, 1)})
+    enums = {n.target.elts[0].id: n for n in root.own if isinstance(n, ast.For) and isinstance(n.iter, ast.Call) and dotted(n.iter.func) == "enumerate" and n.iter.args
+             and isinstance(n.target, ast.Tuple) and len(n.target.elts) == 2 and isinstance(n.target.elts[0], ast.Name)}
+    bindings = {}
+    for n in root.own:
+        if isinstance(n, ast.Name) and isinstance(n.ctx, ast.Store):
+            bindings[n.id] = bindings.get(n.id, 0) + 1
+    lens = {t.id: n for n in root.own if isinstance(n, ast.Assign) and len(n.targets) == 1 and isinstance(t := n.targets[0], ast.Name) and bindings.get(t.id) == 1
+            and isinstance(n.value, ast.Call) and dotted(n.value.func) == "len" and len(n.value.args) == 1 and not n.value.keywords and T.text(root, n.value.args[0]) in lists}
+    T.keep = set(counters) | set(enums) | set(lens)
+    cc0 = T.resolve(*cc[0])
+    cc_args = {u(a) for a in _call_args(cc0)}
+    wid = next((c for c in list(counters) + sorted(enums) + sorted(lens) if c in cc_args), counters[0] if len(counters) == 1 else None)
+    if wid is None:
+        raise _NotHere(f"worker id (a local of {sb.name} advanced by 1, the index of an enumerate loop or the length of the worker list) handed to `{short(cc0, 60)}`")
+    kind = "counter" if wid in counters else ("enumerate" if wid in enums else "length")
+
+    def paired(a, b):
+        """the statements a and b of the home function run together: same block, no statement between them that can leave the block (guard clause)"""
+        blk = logical_parent(a)
+        if blk is not logical_parent(b):
+            return False
+        for field in ("body", "orelse", "finalbody"):
+            seq = flat(getattr(blk, field, None) or [])
+            ia, ib = (next((i for i, s_ in enumerate(seq) if s_ is x), None) for x in (a, b))
+            if ia is not None and ib is not None:
+                lo, hi = sorted((ia, ib))
+                return not any(isinstance(s_, (ast.Continue, ast.Break, ast.Return, ast.Raise)) or (isinstance(s_, ast.If) and getattr(s_, "_synthetic_arm", None)) for s_ in seq[lo:hi])
+        return False
+
+    name = "worker id += 1 in the same block as workers.append"
+    partial = [(fr, n) for fr, n in apps if not T.always_runs(fr, n)]
+    where = "" if len(apps) == 1 and apps[0][0] is root else "append in " + ", ".join(sorted({fr.func.name for fr, _ in apps}))
+    if kind == "counter":
+        incs = [n for n in root.own if isinstance(n, ast.AugAssign) and isinstance(n.target, ast.Name) and n.target.id == wid]
+        block_of_id = incs[0]
+        ok = all(isinstance(i.op, ast.Add) and source.is_const(i.value, 1) and sum(1 for a in app_stmts if paired(a, i)) == 1 for i in incs) \
+            and all(sum(1 for i in incs if paired(a, i)) == 1 for a in app_stmts)
+        if ok and partial:
+            # (the append sits in a helper that does not reach it on every path: whether an id is consumed without a list entry depends on that helper's conditions)
+            chk.unknown(rid, f"`{short(partial[0][1], 50)}` in {partial[0][0].func.name} is not reached by every call of that method: the pairing with `{wid} += 1` is not decided", partial[0][1])
+        else:
+            chk.ob(rid, name, ok, incs[0], where)
+    elif kind == "enumerate":
+        # the id is the number of completed rounds of the loop: it is the list position iff every round appends exactly one worker
+        loop = block_of_id = enums[wid]
+        if len(apps) == 1 and not partial and logical_parent(app_stmts[0]) is loop and any(s_ is app_stmts[0] for s_ in flat(loop.body)) and paired(flat(loop.body)[0], app_stmts[0]):
+            chk.ob(rid, name, True, loop, f"`{wid}` counts the rounds of `{short(loop.iter, 40)}`, every round appends one worker" + ("; " + where if where else ""))
+        else:
+            chk.unknown(rid, f"`{wid}` counts the rounds of the loop over `{short(loop.iter, 40)}`: that every round appends exactly one worker is not recognised", loop)
+    else:
+        # the id is the length of the list: it is the position of the worker appended NEXT
+        d_ = block_of_id = lens[wid]
+        a_ = app_stmts[0]
+        loops = [[x for x in source.ancestors(st) if isinstance(x, (ast.For, ast.While, ast.AsyncFor))] for st in (d_, a_)]
+        above = any(x is logical_parent(d_) for x in source.ancestors(a_))  # (the block of the length is the block of the append or one around it)
+        if len(app_stmts) != 1 or partial or not above:
+            chk.unknown(rid, f"`{short(d_, 50)}`: that exactly one worker is appended after it is not recognised", d_)
+        elif len(loops[1]) > len(loops[0]):
+            chk.ob(rid, name, False, d_, f"`{short(d_, 50)}` is evaluated once for all the workers appended by the loop over `{short(getattr(loops[1][0], 'iter', loops[1][0]), 40)}`")
+        else:
+            chk.ob(rid, name, d_.lineno < a_.lineno, d_, f"`{short(d_, 50)}` " + ("before" if d_.lineno < a_.lineno else "AFTER") + " the append" + ("; " + where if where else ""))
+    # the first id is 0
+    name = "worker id starts at 0"
+    again = None
+    if T is not T0 and kind != "length":
+        # the id lives in a helper: it starts once per benchmark only if start_benchmark enters that helper once (one call site, in no loop)
+        homes = [fr for fr in T0.frames if fr.func is sb]
+        around = [a for fr in homes[:1] for g, n in T0.chain(fr.up, fr.call) for a in source.ancestors(n) if isinstance(a, (ast.For, ast.AsyncFor, ast.While, ast.comprehension, ast.ListComp,
+                                                                                                                          ast.SetComp, ast.DictComp, ast.GeneratorExp)) and source.enclosing_func(a) is g.func]
+        again = ("several", homes[1].call) if len(homes) != 1 else (("loop", around[0]) if around else None)
+    if again is not None and again[0] == "several":
+        chk.unknown(rid, f"{name}: {sb.name}, where the worker id `{wid}` lives, is called from several places", again[1])
+    elif again is not None:
+        chk.ob(rid, name, False, homes[0].call, f"`{wid}` starts again for every call of {sb.name}, which is called inside `{short(again[1], 50)}`")
+    elif kind == "counter":
+        wi = [n for n in root.own if isinstance(n, ast.Assign) and any(u(t) == wid for t in n.targets)]
+        if not wi:
+            chk.unknown(rid, f"{name}: no plain assignment to `{wid}` in {sb.name}", incs[0])
+        else:
+            try:
+                vals = [_ev(inline_node(n.value, root.defs), {}) for n in wi]
+            except me.CannotEval as x:
+                vals = None
+                chk.unknown(rid, f"{name}: the initial value `{short(wi[0].value, 40)}` cannot be evaluated ({x})", wi[0])
+            if vals is not None:
+                nz = [n for n, v in zip(wi, vals) if isinstance(v, bool) or v != 0]
+                if not nz and len(wi) > 1:
+                    chk.unknown(rid, f"{name}: `{wid}` is reset in {len(wi)} places", wi[1])
+                else:
+                    chk.ob(rid, name, not nz, (nz or wi)[0], "")
+    elif kind == "enumerate":
+        it = enums[wid].iter
+        start = it.args[1] if len(it.args) > 1 else next((k.value for k in it.keywords if k.arg == "start"), None)
+        try:
+            v = 0 if start is None else _ev(inline_node(start, root.defs), {})
+            chk.ob(rid, name, not isinstance(v, bool) and v == 0, enums[wid], short(it, 60))
+        except me.CannotEval as x:
+            chk.unknown(rid, f"{name}: the start of `{short(it, 50)}` cannot be evaluated ({x})", enums[wid])
+    else:
+        # the list is empty before the first worker: every plain assignment to the attribute in the class is an empty list and nothing else grows it
+        attr = T.resolve(*[(fr, n.func.value) for fr, n in apps][0]).attr
+        stores = [n for n in ast.walk(D) if isinstance(n, ast.Assign) and any(is_self_attr(t, attr) for t in n.targets)]
+        grows = [n for n in ast.walk(D) if isinstance(n, ast.Call) and isinstance(n.func, ast.Attribute) and n.func.attr in ("append", "extend", "insert") and is_self_attr(n.func.value, attr)
+                 and not any(n is a for _, a in apps)] + [n for n in ast.walk(D) if isinstance(n, ast.AugAssign) and is_self_attr(n.target, attr)]
+        empty = [isinstance(n.value, ast.List) and not n.value.elts or (isinstance(n.value, ast.Call) and dotted(n.value.func) == "list" and not n.value.args) for n in stores]
+        if stores and all(empty) and not grows:
+            chk.ob(rid, name, True, stores[0], f"`self.{attr}` is only ever assigned an empty list and grows only by the located append")
+        else:
+            chk.unknown(rid, f"{name}: that `self.{attr}` is empty before the first worker is created is not recognised", (grows or stores or [lens[wid]])[0])
+    name = "the counter is the id given to the created worker"
+    if wid in cc_args or any(isinstance(x, ast.Name) and x.id == wid for a in _call_args(cc0) for x in ast.walk(a)):
+        chk.ob(rid, name, wid in cc_args, cc[0][1], short(cc0 if cc[0][0] is not root else cc[0][1], 70))
+    else:
+        chk.unknown(rid, f"{name}: no argument of `{short(cc0, 70)}` is derived from `{wid}`", cc[0][1])
+    # each client is recorded under the worker id: the dict attribute keyed by the client of the client loop. The loop is the one (in any activation) around a
+    # `<client allocations>.add(<client>, <row>)` one argument of which is its loop variable; it belongs to the block in which the id is determined
+    def loops_around(fr, node):
+        for g, n in T.chain(fr, node):
+            for a in source.ancestors(n):
+                if a is g.func:
+                    break
+                if isinstance(a, ast.For):
+                    yield g, a
+
+    def loop_vars(g, L):
+        return [T.tag(g, x.id) for x in ast.walk(L.target) if isinstance(x, ast.Name)]
+
+    def in_id_block(g, L):
+        # the loop runs in the round of the worker start-up in which the id is determined: in the block (or a block inside it) that advances the counter / takes the length,
+        # inside the enumerate loop
+        st = T.root_stmt(g, L)
+        if kind == "counter":
+            return any(i_ is block_of_id for i_ in ast.walk(logical_parent(st)))
+        return any(x is (block_of_id if kind == "enumerate" else logical_parent(block_of_id)) for x in source.ancestors(st))
+
+    al = []
+    for fr, x in T.nodes(lambda n: isinstance(n, ast.Call) and last_attr(n.func) == "add" and len(_call_args(n)) == 2):
+        texts = [T.text(fr, a_) for a_ in _call_args(x)]
+        for g, L in loops_around(fr, x):
+            if set(loop_vars(g, L)) & set(texts) and in_id_block(g, L):
+                al.append((fr, x, g, L))
+                break
+    by_client = bool(al)
+    if not al:
+        # no `add` takes the variable of a loop around it. Located by the other role of its receiver: the object is handed to the actor that created the worker
+        # (`<actor>.start_worker(.., <client allocations>, ..)`); the loop is the innermost one around the call
+        actor = T.text(cc[0][0], cc[0][1].func.value) if isinstance(cc[0][1].func, ast.Attribute) else None
+        handed = {T.text(fr, a_) for fr, n in T.nodes(lambda n: isinstance(n, ast.Call) and isinstance(n.func, ast.Attribute)) if not any(n is c for _, c in cc)
+                  and T.text(fr, n.func.value) == actor for a_ in _call_args(n)}
+        for fr, x in T.nodes(lambda n: isinstance(n, ast.Call) and last_attr(n.func) == "add" and isinstance(n.func, ast.Attribute) and len(_call_args(n)) == 2):
+            if T.text(fr, x.func.value) in handed:
+                al += [(fr, x, g, L) for g, L in list(loops_around(fr, x))[:1] if in_id_block(g, L)]
+    if not al:
+        raise AnchorMissing(f"`<client allocations>.add(<client>, <row>)` in the client loop of {sb.name}")
+    afr, add, lfr, loop = al[0]
+    if not by_client:
+        radd = T.resolve(afr, add)
+        if any(isinstance(x, ast.Name) and x.id in loop_vars(lfr, loop) for a_ in _call_args(radd) for x in ast.walk(a_)):
+            chk.unknown(rid, f"`{short(radd, 70)}`: the client is derived from the variable of the loop over `{short(loop.iter, 30)}` in a way that is not recognised", add)
+        else:
+            chk.ob(rid, "each client gets its own matrix row", False, add, f"`{short(radd, 70)}` in the loop over `{short(loop.iter, 30)}`: no argument depends on the client `{u(loop.target)}` of the loop")
+        return
+    clv = next(v_ for v_ in loop_vars(lfr, loop) if v_ in [T.text(afr, a_) for a_ in _call_args(add)])
+    # `self.<dict>[<client>] = <a worker id candidate>` in the client loop (by name as a fall-back, so that a wrong value is reported and not just 'not found')
+    in_loop = T.nodes(lambda n: isinstance(n, ast.Assign) and len(n.targets) == 1 and isinstance(n.targets[0], ast.Subscript))
+    in_loop = [(fr, n) for fr, n in in_loop if any(g is lfr and L is loop for g, L in loops_around(fr, n)) and is_self_attr(T.resolve(fr, n.targets[0].value))]
+    cpw_ = [(fr, n) for fr, n in in_loop if T.text(fr, n.targets[0].slice) == clv and T.text(fr, n.value) in T.keep] \
+        or [(fr, n) for fr, n in in_loop if T.resolve(fr, n.targets[0].value).attr == "clients_per_worker"]
+    if not cpw_:
+        chk.unknown(rid, f"no `self.<clients per worker>[<client>] = <worker id>` in the client loop of {sb.name}", add)
+    else:
+        fr, n = cpw_[0]
+        chk.ob(rid, "clients_per_worker[client] := this worker id", T.text(fr, n.value) == wid and T.text(fr, n.targets[0].slice) == clv, n, short(n, 60))
+    # the matrix attribute of the driver: assigned from the allocator's builder property
+    try:
+        bname = _builder(drv).name
+    except AnchorMissing:
+        bname = None  # (the builder delegates the constructions to helpers: the row argument is then only required to be a subscript by the client)
+    mattr = {rt.attr for fr, n in T0.nodes(lambda n: isinstance(n, ast.Assign) and isinstance(n.value, ast.Attribute) and n.value.attr == bname) for t in n.targets
+             if is_self_attr(rt := T0.resolve(fr, t))}
+    row = next(r_ for a_ in _call_args(add)[::-1] if u(r_ := T.resolve(afr, a_)) != clv)  # (`row = self.allocations[client]; ....add(client, row)`)
+    if not isinstance(row, ast.Subscript):
+        chk.unknown(rid, f"`{short(add, 60)}`: the row handed over for the client is not a subscript of the matrix", add)
+    else:
+        ok = u(row.slice) == clv and (not mattr or (is_self_attr(row.value) and row.value.attr in mattr))
+        chk.ob(rid, "each client gets its own matrix row", ok, add, short(add, 70))
+
+
 def run(chk):
     repo = chk.repo
     drv, trk = repo.module(_D), repo.module(_T)
@@ -1970,7 +2382,8 @@ def run(chk):
         "representative (element clients, row count) values, whether that modulus and the padding bound are the element's own client count (O2.8, client cap of a parallel element); per-task "
         "client ranges telescope (the client loop evaluated for representative offsets / client counts: element-wide indices s..s+n-1, task-local 0..n-1, offset advanced by n); worker "
         "partition tiles 0..n-1 contiguously (range(c, c+k), c += k), per-host share = min(ceil(n/hosts), remaining) evaluated over a simulated host loop, with remaining decreased by "
-        "the same amount, round-robin per core; worker ids are list positions; a parallel element's client count is computed on demand from its current sub-tasks (evaluated). "
+        "the same amount, round-robin per core; worker ids are list positions (start_benchmark analysed together with the helper methods it delegates to: arguments followed through the "
+        "call sites, returned values back to the caller; the id is a counter advanced with the append, an enumerate index or the length of the list); a parallel element's client count is computed on demand from its current sub-tasks (evaluated). "
         "Roles that are not located (or have a shape that is not enumerated) are decided end to end: the worker assignment function and the allocator (matrix builder, per-step "
         "entries, constructors of the cell classes) are evaluated for representative hosts / schedules and the same facts are read off the results."
     )
@@ -2014,61 +2427,10 @@ def run(chk):
     # ---- O2.5 worker ids are positions -------------------------------------------------------------------------------------------------------------------
     chk.rule("O2.5", "the counter passed as worker id is incremented exactly on the paths that append to the worker list (ids == list positions); each client is recorded under that worker id", 3,
              "a host with more cores than clients: worker ids skip, the driver addresses the wrong arrival entry")
-    D = drv.cls("Driver")
-    sb = drv.methods(D).get("start_benchmark")
-    if sb is None:
-        raise AnchorMissing("Driver.start_benchmark")
-    cc = [n for n in walk_body(sb) if isinstance(n, ast.Call) and last_attr(n.func) == "create_client"]
-    if not cc:
-        raise AnchorMissing("creation of a worker (`create_client(...)`) in Driver.start_benchmark")
-    # the worker list: the self attribute the created worker is appended to
-    created = {t.id for n in walk_body(sb) if isinstance(n, ast.Assign) and any(n.value is c for c in cc) for t in n.targets if isinstance(t, ast.Name)}
-    apps = [n for n in walk_body(sb) if isinstance(n, ast.Call) and last_attr(n.func) == "append" and isinstance(n.func, ast.Attribute) and is_self_attr(n.func.value) and len(n.args) == 1
-            and (u(n.args[0]) in created or any(n.args[0] is c for c in cc))]
-    if not apps:
-        raise AnchorMissing("append of the created worker to a list attribute of the driver in start_benchmark")
-    # the id counter: a local advanced by one in start_benchmark; of several the one handed to create_client
-    counters = sorted({n.target.id for n in walk_body(sb) if isinstance(n, ast.AugAssign) and isinstance(n.op, ast.Add) and isinstance(n.target, ast.Name) and source.is_const(n.value, 1)})
-    cc_args = {u(a) for a in list(cc[0].args) + [k.value for k in cc[0].keywords]}
-    wid = next((c for c in counters if c in cc_args), counters[0] if len(counters) == 1 else None)
-    if wid is None:
-        raise AnchorMissing(f"worker id counter (a local advanced by 1) in start_benchmark; candidates {counters}")
-    incs = [n for n in walk_body(sb) if isinstance(n, ast.AugAssign) and isinstance(n.target, ast.Name) and n.target.id == wid]
-    ok = len(apps) == 1 and len(incs) == 1 and isinstance(incs[0].op, ast.Add) and source.is_const(incs[0].value, 1) and logical_parent(source.enclosing_stmt(apps[0])) is logical_parent(incs[0])
-    chk.ob("O2.5", "worker id += 1 in the same block as workers.append", ok, incs[0], "")
-    wi = [n for n in walk_body(sb) if isinstance(n, ast.Assign) and any(u(t) == wid for t in n.targets)]
-    chk.ob("O2.5", "worker id starts at 0", len(wi) == 1 and source.is_const(wi[0].value, 0), wi[0] if wi else sb, "")
-    chk.ob("O2.5", "the counter is the id given to the created worker", wid in cc_args, cc[0], short(cc[0], 70))
-    # each client is recorded under the worker id: the dict attribute keyed by the client of the client loop
-    cl_loops = [n for n in walk_body(sb) if isinstance(n, ast.For) and isinstance(n.target, ast.Name) and any(x is incs[0] for x in ast.walk(logical_parent(n)))
-                and any(isinstance(x, ast.Call) and last_attr(x.func) == "add" for x in ast.walk(n))]
-    def add_args(x):
-        # the two arguments of `<client allocations>.add(...)`, given by position or by keyword
-        return list(x.args) + [k.value for k in x.keywords if k.arg is not None]
-
-    al = [x for n in cl_loops for x in ast.walk(n) if isinstance(x, ast.Call) and last_attr(x.func) == "add" and len(add_args(x)) == 2 and any(u(a_) == n.target.id for a_ in add_args(x))]
-    if not al:
-        raise AnchorMissing("`<client allocations>.add(<client>, <row>)` in the client loop of start_benchmark")
-    clv = next(a_.id for a_ in add_args(al[0]) if isinstance(a_, ast.Name) and any(n.target.id == a_.id for n in cl_loops))
-    # `self.<dict>[<client>] = <a counter>` in the client loop (by name as a fall-back, so that a wrong value is reported and not just 'not found')
-    in_loop = [n for n in ast.walk(source.enclosing(al[0], ast.For)) if isinstance(n, ast.Assign) and len(n.targets) == 1 and isinstance(n.targets[0], ast.Subscript) and is_self_attr(n.targets[0].value)]
-    cpw_ = [n for n in in_loop if u(n.targets[0].slice) == clv and isinstance(n.value, ast.Name) and n.value.id in counters] or [n for n in in_loop if n.targets[0].value.attr == "clients_per_worker"]
-    if not cpw_:
-        chk.unknown("O2.5", "no `self.<clients per worker>[<client>] = <worker id>` in the client loop of start_benchmark", al[0])
-    else:
-        chk.ob("O2.5", "clients_per_worker[client] := this worker id", u(cpw_[0].value) == wid and u(cpw_[0].targets[0].slice) == clv, cpw_[0], short(cpw_[0], 60))
-    # the matrix attribute of the driver: assigned from the allocator's builder property
     try:
-        bname = _builder(drv).name
-    except AnchorMissing:
-        bname = None  # (the builder delegates the constructions to helpers: the row argument is then only required to be a subscript by the client)
-    mattr = {t.attr for n in walk_body(sb) if isinstance(n, ast.Assign) and isinstance(n.value, ast.Attribute) and n.value.attr == bname for t in n.targets if is_self_attr(t)}
-    row = inline_node(next(a_ for a_ in add_args(al[0])[::-1] if u(a_) != clv), local_defs(sb))  # (`row = self.allocations[client]; ....add(client, row)`)
-    if not isinstance(row, ast.Subscript):
-        chk.unknown("O2.5", f"`{short(al[0], 60)}`: the row handed over for the client is not a subscript of the matrix", al[0])
-    else:
-        ok = u(inline_node(row.slice, local_defs(sb))) == clv and (not mattr or (is_self_attr(row.value) and row.value.attr in mattr))
-        chk.ob("O2.5", "each client gets its own matrix row", ok, al[0], short(al[0], 70))
+        worker_ids_are_positions(chk, "O2.5", drv)
+    except AnchorMissing as x:
+        chk.unknown("O2.5", f"not recognised: {x}", drv.cls("Driver"))
 
     # ---- O2.6 parallel client count --------------------------------------------------------------------------------------------------------------------
     chk.rule("O2.6", "a parallel element's client count is the explicit value when not None, else the sum over its CURRENT sub-tasks (computed on demand, not cached at construction)", 2,
@@ -2327,4 +2689,134 @@ VARIANTS += [
     V("h3 keep: matrix row through a local, add() by keyword", "keep", _D, _ADD_OLD, "                        row = self.allocations[client_id]\n                        client_allocations.add(tasks=row, client_id=client_id)\n"),
     V("h3 break: the worker's row instead of the client's", "break", _D, _ADD_OLD, "                        row = self.allocations[worker_id]\n                        client_allocations.add(client_id, row)\n", "O2.5"),
     V("h3 keep: per-step entries initialised to an empty list in the constructor", "keep", _D, "        self.tasks_per_join_point = None\n", "        self.tasks_per_join_point = []\n"),
+]
+
+# ---- hardening round 4: the worker start-up of Driver.start_benchmark cut into helper methods (benign/C02-b11) ---------------------------------------------------------
+_SW_CREATE = "                    worker = self.driver_actor.create_client(host, self.config, worker_id)\n\n"
+_SW_SETUP = "                    client_allocations = ClientAllocations()\n                    worker_client_contexts = {}\n"
+_SW_LOOP_HEAD = "                    for client_id in clients:\n"
+_SW_LOOP_BODY = ("                        client_allocations.add(client_id, self.allocations[client_id])\n"
+                 "                        self.clients_per_worker[client_id] = worker_id\n"
+                 "                        client_context = ClientContext(client_id=client_id, parent_worker_id=worker_id)\n\n"
+                 "                        if create_api_keys:\n"
+                 "                            resp = self.create_api_key(self.default_sync_es_client, client_id)\n"
+                 "                            client_context.api_key = ApiKey(id=resp[\"id\"], secret=resp[\"api_key\"])\n\n"
+                 "                        worker_client_contexts[client_id] = client_context\n"
+                 "                        self.client_contexts[worker_id] = worker_client_contexts\n")
+_SW_START = ("                    self.driver_actor.start_worker(\n"
+             "                        worker, worker_id, self.config, self.track, client_allocations, client_contexts=worker_client_contexts\n                    )\n")
+_SW_APPEND = "                    self.workers.append(worker)\n"
+_SW_INC = "                    worker_id += 1\n"
+_SW_BLOCK = _SW_CREATE + _SW_SETUP + _SW_LOOP_HEAD + _SW_LOOP_BODY + _SW_START
+_SW_NEXT = "    def joinpoint_reached(self, worker_id, worker_local_timestamp, task_allocations):\n"
+
+
+def _dedent(text, by):
+    return "".join(line[by:] if line.strip() else line for line in text.splitlines(True))
+
+
+_SW_CALL = "                    worker = self._start_worker(host, worker_id, clients, create_api_keys)\n"
+_SW_HELPER = ("    def _start_worker(self, host, worker_id, client_ids, create_api_keys):\n"
+              + _dedent(_SW_BLOCK, 12).replace("for client_id in clients:", "for client_id in client_ids:") + "        return worker\n\n")
+_SW_HELPER_APPENDS = _SW_HELPER.replace("        return worker\n", "        self.workers.append(worker)\n")
+_SW_LOOP_CALL = "                    client_allocations, worker_client_contexts = self._allocations_of(worker_id, clients, create_api_keys)\n"
+_SW_LOOP_HELPER = ("    def _allocations_of(self, worker, client_ids, create_api_keys):\n"
+                   + _dedent(_SW_SETUP + _SW_LOOP_HEAD + _SW_LOOP_BODY, 12).replace("for client_id in clients:", "for client_id in client_ids:").replace("worker_id", "worker")
+                   + "        return client_allocations, worker_client_contexts\n\n")
+_SW_BODY_CALL = "                        self._register_client(client_allocations, worker_client_contexts, worker_id, client_id, create_api_keys)\n"
+_SW_BODY_HELPER = ("    def _register_client(self, allocations_of_worker, contexts_of_worker, worker, client, with_api_key):\n"
+                   + _dedent(_SW_LOOP_BODY, 16).replace("worker_client_contexts", "contexts_of_worker").replace("client_allocations", "allocations_of_worker")
+                   .replace("client_id=client_id", "client_id=client").replace("[client_id]", "[client]").replace("(client_id, ", "(client, ").replace(", client_id)", ", client)")
+                   .replace("parent_worker_id=worker_id", "parent_worker_id=worker").replace("= worker_id\n", "= worker\n").replace("[worker_id]", "[worker]")
+                   .replace("if create_api_keys:", "if with_api_key:") + "\n")
+_SW_GUARD_OLD = "                if len(clients) > 0:\n" + "                    self.logger.debug(\"Allocating worker [%d] on [%s] with [%d] clients.\", worker_id, host, len(clients))\n" + _SW_BLOCK + _SW_APPEND + _SW_INC
+_SW_GUARD_NEW = "                if len(clients) == 0:\n                    continue\n" + _dedent(_SW_GUARD_OLD.split("\n", 1)[1], 4)
+
+VARIANTS += [
+    [V("h4 keep (C02-b11): the start-up of one worker extracted into a method that returns the worker", "keep", _D, _SW_BLOCK, _SW_CALL),
+     V("", "keep", _D, _SW_NEXT, _SW_HELPER + _SW_NEXT)],
+    [V("h4 break: extracted start-up hands over the matrix row of the worker id", "break", _D, _SW_BLOCK, _SW_CALL, "O2.5"),
+     V("", "break", _D, _SW_NEXT, _SW_HELPER.replace("self.allocations[client_id]", "self.allocations[worker_id]") + _SW_NEXT)],
+    [V("h4 break: extracted start-up is given the next worker id", "break", _D, _SW_BLOCK, _SW_CALL.replace("host, worker_id, clients", "host, worker_id + 1, clients"), "O2.5"),
+     V("", "break", _D, _SW_NEXT, _SW_HELPER + _SW_NEXT)],
+    [V("h4 break: extracted start-up called with host and worker id swapped", "break", _D, _SW_BLOCK, _SW_CALL.replace("host, worker_id, clients", "worker_id, host, clients"), "O2.5"),
+     V("", "break", _D, _SW_NEXT, _SW_HELPER + _SW_NEXT)],
+    [V("h4 break: extracted start-up records the clients under the client count", "break", _D, _SW_BLOCK, _SW_CALL, "O2.5"),
+     V("", "break", _D, _SW_NEXT, _SW_HELPER.replace("self.clients_per_worker[client_id] = worker_id", "self.clients_per_worker[worker_id] = client_id") + _SW_NEXT)],
+    [V("h4 break: extracted start-up, worker id advanced outside the guard", "break", _D, _SW_BLOCK + _SW_APPEND + _SW_INC, _SW_CALL + _SW_APPEND + _SW_INC[4:], "O2.5"),
+     V("", "break", _D, _SW_NEXT, _SW_HELPER + _SW_NEXT)],
+    [V("h4 keep: the extracted start-up appends the worker to the list itself", "keep", _D, _SW_BLOCK + _SW_APPEND, _SW_CALL.replace("worker = ", "")),
+     V("", "keep", _D, _SW_NEXT, _SW_HELPER_APPENDS + _SW_NEXT)],
+    [V("h4 break: the extracted start-up appends the worker, the id is advanced for every worker slot", "break", _D, _SW_BLOCK + _SW_APPEND + _SW_INC, _SW_CALL.replace("worker = ", "") + _SW_INC[4:], "O2.5"),
+     V("", "break", _D, _SW_NEXT, _SW_HELPER_APPENDS + _SW_NEXT)],
+    [V("h4 keep: the client loop extracted into a method that returns the allocations and the contexts", "keep", _D, _SW_SETUP + _SW_LOOP_HEAD + _SW_LOOP_BODY, _SW_LOOP_CALL),
+     V("", "keep", _D, _SW_NEXT, _SW_LOOP_HELPER + _SW_NEXT)],
+    [V("h4 break: extracted client loop is given the length of the worker list plus one", "break", _D, _SW_SETUP + _SW_LOOP_HEAD + _SW_LOOP_BODY,
+       _SW_LOOP_CALL.replace("(worker_id, clients", "(worker_id + 1, clients"), "O2.5"),
+     V("", "break", _D, _SW_NEXT, _SW_LOOP_HELPER + _SW_NEXT)],
+    [V("h4 keep: the body of the client loop extracted into a method", "keep", _D, _SW_LOOP_BODY, _SW_BODY_CALL),
+     V("", "keep", _D, _SW_NEXT, _SW_BODY_HELPER + _SW_NEXT)],
+    [V("h4 break: extracted loop body called with client and worker id swapped", "break", _D, _SW_LOOP_BODY, _SW_BODY_CALL.replace("worker_id, client_id,", "client_id, worker_id,"), "O2.5"),
+     V("", "break", _D, _SW_NEXT, _SW_BODY_HELPER + _SW_NEXT)],
+    [V("h4 break: extracted loop body hands over the first row of the matrix", "break", _D, _SW_LOOP_BODY, _SW_BODY_CALL, "O2.5"),
+     V("", "break", _D, _SW_NEXT, _SW_BODY_HELPER.replace("self.allocations[client]", "self.allocations[0]") + _SW_NEXT)],
+    V("h4 keep: workers without clients skipped by a guard clause", "keep", _D, _SW_GUARD_OLD, _SW_GUARD_NEW),
+    V("h4 break: guard clause, worker id advanced before the guard", "break", _D, _SW_GUARD_OLD,
+      "                worker_id += 1\n" + _SW_GUARD_NEW.replace(_dedent(_SW_INC, 4), ""), "O2.5"),
+]
+
+# the worker id by another construction than a counter; helpers of other kinds (nested function, early return, two levels, result appended directly)
+_SW_LOOPS_OLD = ("        worker_id = 0\n        for assignment in worker_assignments:\n            host = assignment[\"host\"]\n            for clients in assignment[\"workers\"]:\n"
+                 "                # don't assign workers without any clients\n" + _SW_GUARD_OLD)
+_SW_ENUM = ("        non_empty = [(assignment[\"host\"], clients) for assignment in worker_assignments for clients in assignment[\"workers\"] if len(clients) > 0]\n"
+            "        for worker_id, (host, clients) in enumerate(non_empty):\n" + _dedent(_SW_GUARD_OLD.split("\n", 1)[1].replace(_SW_INC, ""), 8))
+_SW_LEN_DROP = [V("", "keep", _D, "        worker_id = 0\n        for assignment in worker_assignments:\n", "        for assignment in worker_assignments:\n"),
+                V("", "keep", _D, _SW_APPEND + _SW_INC, _SW_APPEND)]
+_SW_HELPER_GUARDED = _SW_HELPER.replace("        worker = self.driver_actor.create_client", "        if not client_ids:\n            return None\n        worker = self.driver_actor.create_client")
+_SW_HELPER_OUTER = _SW_HELPER.replace(_dedent(_SW_SETUP + _SW_LOOP_HEAD + _SW_LOOP_BODY, 12).replace("for client_id in clients:", "for client_id in client_ids:"),
+                                      "        client_allocations, worker_client_contexts = self._allocations_of(worker_id, client_ids, create_api_keys)\n")
+_SW_NESTED = ("        def start(host, worker_id, client_ids):\n" + _dedent(_SW_BLOCK, 8).replace("for client_id in clients:", "for client_id in client_ids:") + "            return worker\n\n")
+
+VARIANTS += [
+    V("h4 keep: worker id as the index of an enumerate loop over the non-empty worker slots", "keep", _D, _SW_LOOPS_OLD, _SW_ENUM),
+    V("h4 break: enumerate loop over the non-empty worker slots starts at 1", "break", _D, _SW_LOOPS_OLD, _SW_ENUM.replace("enumerate(non_empty)", "enumerate(non_empty, start=1)"), "O2.5"),
+    [V("h4 keep: worker id as the length of the worker list, taken in the block of the append", "keep", _D, "                    self.logger.debug(\"Allocating worker [%d] on",
+       "                    worker_id = len(self.workers)\n                    self.logger.debug(\"Allocating worker [%d] on")] + _SW_LEN_DROP,
+    [V("h4 keep: worker id as the length of the worker list, taken before the skip of empty workers", "keep", _D, "                # don't assign workers without any clients\n",
+       "                worker_id = len(self.workers)\n")] + _SW_LEN_DROP,
+    [V("h4 break: the length of the worker list taken once per host", "break", _D, "            host = assignment[\"host\"]\n            for clients in assignment[\"workers\"]:\n",
+       "            host = assignment[\"host\"]\n            worker_id = len(self.workers)\n            for clients in assignment[\"workers\"]:\n", "O2.5")] + _SW_LEN_DROP,
+    [V("h4 keep: the result of the extracted start-up appended directly", "keep", _D, _SW_BLOCK + _SW_APPEND,
+       "                    self.workers.append(self._start_worker(host, worker_id, clients, create_api_keys))\n"),
+     V("", "keep", _D, _SW_NEXT, _SW_HELPER + _SW_NEXT)],
+    [V("h4 keep: extracted start-up with an early return for an empty client list, arguments by keyword", "keep", _D, _SW_BLOCK,
+       "                    worker = self._start_worker(host=host, client_ids=clients, worker_id=worker_id, create_api_keys=create_api_keys)\n"),
+     V("", "keep", _D, _SW_NEXT, _SW_HELPER_GUARDED + _SW_NEXT)],
+    [V("h4 keep: extracted start-up that delegates the client loop to a second method", "keep", _D, _SW_BLOCK, _SW_CALL),
+     V("", "keep", _D, _SW_NEXT, _SW_HELPER_OUTER + _SW_LOOP_HELPER + _SW_NEXT)],
+    [V("h4 break: two levels of helpers, the inner one is given the next worker id", "break", _D, _SW_BLOCK, _SW_CALL, "O2.5"),
+     V("", "break", _D, _SW_NEXT, _SW_HELPER_OUTER.replace("_allocations_of(worker_id,", "_allocations_of(worker_id + 1,") + _SW_LOOP_HELPER + _SW_NEXT)],
+    [V("h4 keep: the start-up of one worker as a function nested in start_benchmark", "keep", _D, _SW_BLOCK, "                    worker = start(host, worker_id, clients)\n"),
+     V("", "keep", _D, "        worker_id = 0\n        for assignment in worker_assignments:\n", _SW_NESTED + "        worker_id = 0\n        for assignment in worker_assignments:\n")],
+    [V("h4 break: nested start-up function records the clients under the host", "break", _D, _SW_BLOCK, "                    worker = start(host, worker_id, clients)\n", "O2.5"),
+     V("", "break", _D, "        worker_id = 0\n        for assignment in worker_assignments:\n",
+       _SW_NESTED.replace("self.clients_per_worker[client_id] = worker_id", "self.clients_per_worker[client_id] = host") + "        worker_id = 0\n        for assignment in worker_assignments:\n")],
+]
+
+# the whole loop over the worker assignments moved out of start_benchmark: the worker id then lives in the helper
+_SW_WHOLE = _SW_LOOPS_OLD + "\n"
+_SW_WHOLE_HELPER = "    def _start_workers(self, worker_assignments, create_api_keys):\n" + _SW_LOOPS_OLD + "\n"
+_SW_PER_HOST_HELPER = ("    def _start_workers_on(self, assignment, create_api_keys):\n        worker_id = 0\n        host = assignment[\"host\"]\n"
+                       + _dedent(_SW_LOOPS_OLD.split("            host = assignment[\"host\"]\n", 1)[1], 4) + "\n")
+
+VARIANTS += [
+    [V("h4 keep: the loop over the worker assignments extracted into a method (the id counter lives in the helper)", "keep", _D, _SW_WHOLE,
+       "        self._start_workers(worker_assignments, create_api_keys)\n\n"),
+     V("", "keep", _D, _SW_NEXT, _SW_WHOLE_HELPER + _SW_NEXT)],
+    [V("h4 break: extracted loop over the worker assignments advances the id for every worker slot", "break", _D, _SW_WHOLE,
+       "        self._start_workers(worker_assignments, create_api_keys)\n\n", "O2.5"),
+     V("", "break", _D, _SW_NEXT, _SW_WHOLE_HELPER.replace(_SW_APPEND + _SW_INC, _SW_APPEND + _SW_INC[4:]) + _SW_NEXT)],
+    [V("h4 break: per-host helper starts the worker id at 0 for every host", "break", _D, _SW_WHOLE,
+       "        for assignment in worker_assignments:\n            self._start_workers_on(assignment, create_api_keys)\n\n", "O2.5"),
+     V("", "break", _D, _SW_NEXT, _SW_PER_HOST_HELPER + _SW_NEXT)],
 ]
